@@ -257,7 +257,11 @@ def concrete_items(I, it):
             return [VTuple([VInt(i), x]) for i, x in enumerate(inner)]
         if o.kind == "items":
             d = st.heap[o.data.ref].data
+            if st.heap[o.data.ref].kind == "adict":
+                return [VTuple([k, v]) for k, v in d]
             return [VTuple([I.from_py(k), v]) for k, v in d.items()]
+        if o.kind == "adict":
+            return [k for k, _ in o.data]
         if o.kind == "values":
             d = st.heap[o.data.ref].data
             return list(d.values())
